@@ -1093,7 +1093,7 @@ func coCanary() string {
 
 func runC06M(run *Run) {
 	if !replayMode.on || wholeRun {
-		for _, line := range c06HostStates() {
+		for _, line := range append(c06HostStates(), c06YieldOverflow()...) {
 			run.Failures = append(run.Failures, Failure{CaseIdx: -9070, Kind: "CRASH", Line: line, Reply: line, Lines: []string{line}})
 		}
 	}
